@@ -78,6 +78,11 @@ CHECKS = {
             "Request direction: 0..6 generated controls per message, each encoded by the harness's RFC-shape encoder, by gldap's own Encode or by go-ldap's Encode, decoded by the server's request path and compared field by field (type, criticality, page size, cookie, expire, grace, error + string, value) in order. Response direction: controls built with the exported constructors, written on Bind/SearchDone responses by a real handler, recovered by the harness's strict parser and by go-ldap's DecodeControl. Constructor: every subset/order of the three Behera options, error or at most one set and error <= 8. Exploration.",
             "trusts the harness's RFC shapes (RFC 2696, draft-behera-10, draft-vchu) and go-ldap as second reader; value-less Behera and OIDs go-ldap reinterprets are excluded from the go-ldap comparison and counted; MustChange and criticality of kinds without such a field are not compared",
             "DESIGN.md §4 C14"),
+    "C15": ("exploration",
+            "Go race detector over the generated concurrent workloads of C05, C06, C08, C09, C10, C12, C13, C17, C20 and a generated directory workload (Set*/getters vs. client traffic); reports attributed by first non-stdlib frame of both stacks",
+            "The -race build of the harness runs the generated scenario families of the concurrency properties plus a directory workload in which a goroutine calls every Set* method and getter while 2..8 clients are served over plain/TLS/StartTLS. Every race report is parsed by the driver; it counts iff in BOTH stacks the first frame outside the Go standard library lies in github.com/jimlambrt/gldap/... (fingerprint = unordered function pair). The detector generalises each execution to all schedules with the same synchronisation structure; code no workload executes is not covered.",
+            "trusts the race detector's happens-before analysis; the harness never mutates entries after handing them to Set* and never touches what getters return, so harness-vs-gldap reports cannot come from its own accesses; other reports are listed in the evidence file but do not decide the property",
+            "DESIGN.md §4 C15"),
     "C16": ("exploration",
             "property-based testing (rapid) of totality, inverse and ordering laws + exhaustive 2^24 SID enumeration + native fuzzing of ConvertString",
             "Generated-input search against explicit oracles: no panic under recover for every exported helper/constructor with options drawn from ALL exported options (every subset/order reachable), ConvertString(wrap(s)) == s with an independent BER encoder, SIDBytesToString(SIDBytes(r,a)) == S-r-a (exhaustive over all 2^24 pairs in the thorough tier), NewEntry strictly sorted and stable, Values/ByteValues agreement after AddValue sequences; response constructors run inside real handlers on real requests and are written to the socket. Finds violations, cannot show absence beyond the enumerated SID space.",
